@@ -51,6 +51,15 @@ var joiners = []joiner{
 	{"ArcsClip(4)", canvas.ArcsJoiner{GapJoiner: nil, Limit: 4}, oracle.JoinArcsClip, 4},
 }
 
+// tightJoiners have limits that ordinary corners exceed: the clipping branches and the gap joiner
+// are taken (with the limit 4 above they are only reached by turns of more than 151 degrees)
+var tightJoiners = []joiner{
+	{"Miter(1.2)", canvas.MiterJoiner{GapJoiner: canvas.BevelJoin, Limit: 1.2}, oracle.JoinMiter, 1.2},
+	{"MiterClip(1.5)", canvas.MiterJoiner{GapJoiner: nil, Limit: 1.5}, oracle.JoinMiterClip, 1.5},
+	{"Arcs(1.2)", canvas.ArcsJoiner{GapJoiner: canvas.BevelJoin, Limit: 1.2}, oracle.JoinArcs, 1.2},
+	{"ArcsClip(1.5)", canvas.ArcsJoiner{GapJoiner: nil, Limit: 1.5}, oracle.JoinArcsClip, 1.5},
+}
+
 // ---------------------------------------------------------------------------------------------
 // inputs
 
@@ -570,6 +579,9 @@ func families(tier string) []fw.Family {
 		strokeFamily("open 2-segment polylines (L4 mod translation)", openShapes(4, 2), cappers, joiners),
 		strokeFamily("closed triangles (L4 mod rotation, translation), square capper", closedShapes(4, 3), square, joiners),
 		strokeFamily("curved menu", curved, cappers, joiners),
+		strokeFamily("open 2-segment polylines (L4 mod translation), tight join limits", openShapes(4, 2), cappers[:1], tightJoiners),
+		strokeFamily("closed triangles (L4 mod rotation, translation), square capper, tight join limits", closedShapes(4, 3), square, tightJoiners),
+		strokeFamily("curved menu, tight join limits", curved, cappers[:1], tightJoiners),
 		offsetFamily("Offset: simple triangles (L4) and curved closed contours", append(simpleOnly(closedShapes(4, 3)), closedCurved...)),
 	}
 	if tier == "thorough" {
